@@ -37,7 +37,7 @@ def blk(timeout=600):
 
 def cases(tier):
     q = tier == "quick"
-    cs = [hdr(0, 9999 if q else 999999, 900 if q else 3000)]
+    cs = [hdr(0, 99999 if q else 999999, 900 if q else 3000)]
     for k in range(1, 9):
         cs.append(hdr(10 ** k - 1, 10 ** k, tag="pow10-%d" % k))
     cs.append(hdr(999999999, 999999999, tag="max"))
@@ -51,7 +51,7 @@ def cases(tier):
 
 
 META = dict(
-    bounds=dict(header_lengths="0..9999 (quick) / 0..999999 (thorough) symbolic, plus 10^k-1, 10^k for k=1..8 and 10^9-1", array_elements="0..3",
+    bounds=dict(header_lengths="0..99999 (quick) / 0..999999 (thorough) symbolic, plus 10^k-1, 10^k for k=1..8 and 10^9-1", array_elements="0..3",
                 block_data="0..8 bytes"),
     outside=["header lengths between the symbolic slice and 10^9 other than the listed boundary values (base-10 digit loop, see C14)",
              "arrays of more than 3 elements / blocks of more than 8 bytes (the per-element and per-byte code is loop-uniform)",
